@@ -22,7 +22,7 @@ RULE = (
     "mutually comparable numbers under comparisons) the transition must fire iff all cond entries are truthy and all unless entries falsy under "
     "Python's eval of the canonical text, and - single entry - the sequence of observable name reads (consecutive duplicates collapsed) must equal "
     "Python's. negative cases: unbalanced / truncated / empty strings, unsupported constructs (+, is, in, unary minus, calls, attribute access, "
-    "subscripts, ternary, lambda, walrus ...) and unknown names must raise InvalidDefinition from StateMachine() - no other exception type, and "
+    "subscripts, ternary, lambda, walrus ...) and unknown names (also on a later instance of a class whose earlier instance had the names) must raise InvalidDefinition from StateMachine() - no other exception type, and "
     "never at send time. non-trivial = expression with >=2 different operators, or a chained comparison, or an operator written without surrounding "
     "whitespace, or a valuation where short-circuit/precedence matters (flat left-to-right evaluation would differ)"
 )
@@ -408,7 +408,36 @@ def run_case(case):
         return outcome(True, nontrivial=nontrivial, labels=labels, stats={"valuations": len(case["valuations"])})
 
 
+def run_second_instance(case):
+    """The names of an expression are looked up per instance: a first instance whose model provides them must not make a
+    later instance with a bare model acceptable."""
+    expr = case["expr"]
+    labels = {"negative:second-instance"}
+    body = {"s1": State(initial=True), "s2": State()}
+    with warnings.catch_warnings():
+        warnings.simplefilter("ignore")
+        body["go"] = body["s1"].to(body["s2"], **{case.get("slot", "cond"): expr})
+        body["back"] = body["s2"].to(body["s1"])
+        cls = types.new_class(f"N{next(UID)}", (StateMachine,), {}, lambda d: d.update(body))
+        Good = type("Good", (), {n: 1 for n in BOOL_NAMES + NUM_NAMES + STR_NAMES})
+        Bare = type("Bare", (), {})
+        try:
+            for _ in range(case.get("good_first", 1)):
+                cls(Good(), allow_event_without_transition=True)
+        except InvalidDefinition as e:
+            return outcome(False, "C08:rejected-valid", f"{expr!r} with every name on the model was rejected: {e}", labels=labels)
+        try:
+            sm = cls(Bare(), allow_event_without_transition=True)
+        except InvalidDefinition:
+            return outcome(True, nontrivial=True, labels=labels)
+        except Exception as e:
+            return outcome(False, "C08:wrong-exception-type", f"{expr!r}: second instance with a bare model raised {type(e).__name__}: {e}", labels=labels)
+        return outcome(False, "C08:accepted-invalid", f"{expr!r}: an instance whose model provides none of the names was accepted after an earlier instance of the class had them", labels=labels)
+
+
 def run_negative(case):
+    if case["why"] == "second-instance":
+        return run_second_instance(case)
     expr = case["expr"]
     labels = {"negative:" + case["why"]}
     body = {"s1": State(initial=True), "s2": State()}
@@ -505,13 +534,17 @@ def positive(draw, tier):
 
 @st.composite
 def negative(draw, tier):
-    why = draw(st.sampled_from(["unsupported", "unsupported", "unbalanced", "truncated", "unknown-name", "empty", "lenient"]))
+    why = draw(st.sampled_from(["unsupported", "unsupported", "unbalanced", "truncated", "unknown-name", "empty", "lenient", "second-instance"]))
     slot = draw(st.sampled_from(["cond", "cond", "unless"]))
     allow = draw(st.booleans())
     if why == "unsupported":
         return {"kind": "negative", "why": why, "expr": draw(st.sampled_from(UNSUPPORTED)), "slot": slot, "allow": allow}
     e = draw(entry())
     lib = e["lib"]
+    if why == "second-instance":
+        if not names_of(e["tree"]):
+            lib = lib + " and a"
+        return {"kind": "negative", "why": why, "expr": lib, "slot": slot, "good_first": draw(st.integers(1, 2))}
     if why == "unbalanced":
         ok_pos = [i for i in range(len(lib) + 1) if lib[:i].count("'") % 2 == 0 and lib[:i].count('"') % 2 == 0]
         pos = draw(st.sampled_from(ok_pos))
